@@ -93,14 +93,17 @@ def stripPort : Given → Nat
 
 /-- The `utls.Config` of the fingerprint closure: `c.GetTLSClientConfig()` (created when nil),
 each field copied when the closure copies it (`copied`), else the `utls.Config` zero value;
-`ServerName` falls back to the host part of the `addr` it is given (it strips a port itself). -/
+`ServerName` falls back to the host part of the `addr` it is given (it strips a port itself).
+The ALPN list is the PRESET's, not the client's: utls overwrites `Config.NextProtos` with
+the ALPN extension of the ClientHello spec (u_tls_extensions.go `ALPNExtension.writeToUConn`) —
+`h2, http/1.1` for every browser preset (external, sampled by lane `c12path`). -/
 def effectiveFp (copied : List FpField) (g : Given) (read : Option TlsCfg) : TlsCfg :=
   let c := getCfg read
   { serverName := if copied.contains .serverName && c.serverName != 0 then c.serverName else stripPort g
     insecure := copied.contains .insecureSkipVerify && c.insecure
     roots := if copied.contains .rootCAs then c.roots else none
     certs := if copied.contains .certificates then c.certs else []
-    protos := if copied.contains .nextProtos then c.protos else [] }
+    protos := [.h2, .http11] }
 
 /-- All the fields verification and client authentication look at. -/
 def fpVerifyFields : List FpField := [.serverName, .rootCAs, .insecureSkipVerify, .certificates]
